@@ -1588,10 +1588,13 @@ def run_altsyntax(chk, F, rid="R-PRALTSYN"):
     plain = {}          # K -> callbacks creating it outside any type switch
     guarded = []        # (K, T, callback, line)
     n_fns = 0
-    for fn in F.functions.values():
+    from ..inline import expanded_fn
+    for fn in list(F.functions.values()):
         if not fn.get("q", "").startswith("UTAP::ExpressionBuilder::") or fn.get("body") is None:
             continue
         n_fns += 1
+        # file-local workers (makeProcessSetLookup ..) are read where they are called
+        fn = expanded_fn(fn, F, accept=lambda t_: bool(t_.get("static")) and not t_.get("cls"), maxdepth=2)
         in_switch = set()
         for sw in walk(fn["body"]):
             if sw.get("k") != "switch":
